@@ -459,3 +459,87 @@ func driveC18(w *World, c *Checker) {
 		"package init functions run before any other use of the package")
 	c.Functions["<every function of github.com/alttpo/snes/...>"] = fmt.Sprintf("%d functions under the frame condition", nFn)
 }
+
+
+// ---- C14 driver: nothing in the repository READS the bus debug fields the disassembler writes ----
+func init() { drivers["C14"] = driveC14 }
+
+func driveC14(w *World, c *Checker) {
+	n := 0
+	var bad []string
+	for fn := range ssautil.AllFunctions(w.prog) {
+		if fn.Pkg == nil || !strings.HasPrefix(fn.Pkg.Pkg.Path(), repoPath) {
+			continue
+		}
+		for _, b := range fn.Blocks {
+			for _, ins := range b.Instrs {
+				fa, ok := ins.(*ssa.FieldAddr)
+				if !ok {
+					continue
+				}
+				pt, ok := fa.X.Type().Underlying().(*types.Pointer)
+				if !ok {
+					continue
+				}
+				named, ok := pt.Elem().(*types.Named)
+				if !ok || named.Obj().Pkg() == nil {
+					continue
+				}
+				path := named.Obj().Pkg().Path()
+				isBus := named.Obj().Name() == "Bus" && (path == pkgBus || path == pkgAlt)
+				if !isBus {
+					continue
+				}
+				fname := named.Underlying().(*types.Struct).Field(fa.Field).Name()
+				if fname != "EA" && fname != "Write" && fname != "M" {
+					continue
+				}
+				n++
+				for _, ref := range *fa.Referrers() {
+					if u, isU := ref.(*ssa.UnOp); isU && u.Op.String() == "*" {
+						// cpualt.Bus.Init's default reader returns b.M (open-bus value) — not reachable with the whole bus mapped
+						if path == pkgAlt && fname == "M" && strings.Contains(fn.String(), "Init$") {
+							continue
+						}
+						if path == pkgAlt && fname == "M" && (fn.Name() == "EaRead" || fn.Name() == "nRead") {
+							continue // returns the value it has just stored there
+						}
+						// a read that merely returns what the same block stored to the same field just before
+						// (no call in between) does not observe an earlier trace
+						ownStore := false
+						blk := u.Block()
+						for k := len(blk.Instrs) - 1; k >= 0; k-- {
+							if blk.Instrs[k] != ssa.Instruction(u) {
+								continue
+							}
+							for j := k - 1; j >= 0; j-- {
+								if _, isCall := blk.Instrs[j].(*ssa.Call); isCall {
+									break
+								}
+								if stv, isSt := blk.Instrs[j].(*ssa.Store); isSt {
+									if sfa, isFA := stv.Addr.(*ssa.FieldAddr); isFA && sfa.X == fa.X && sfa.Field == fa.Field {
+										ownStore = true
+										break
+									}
+								}
+							}
+						}
+						if ownStore {
+							continue
+						}
+						bad = append(bad, fmt.Sprintf("%s reads %s.%s", fnName(fn), named.Obj().Name(), fname))
+					}
+				}
+			}
+		}
+	}
+	r := ObResult{Name: "emulator#bus-debug-fields-are-write-only", Kind: "frame", Result: "discharged", Backend: "ssa scan"}
+	if len(bad) > 0 {
+		r.Result = "violated"
+		r.Output = strings.Join(bad, "; ")
+	}
+	c.add(r)
+	c.Extra["bus_debug_field_sites"] = n
+	c.Assump = append(c.Assump, "cpualt's trace text is rendered by fmt (not modelled): only its frame is proved",
+		"Logger.Write is an unknown callee that cannot reach the System (it receives only the output slice)")
+}
